@@ -290,10 +290,21 @@ func (t *target) Backup() (blob string, res string) {
 	return blob, res
 }
 
+// Restore replays pathRestoreUpdate: RestorePolicy inside a storage transaction.
 func (t *target) Restore(blob string, force bool) string {
+	return t.inTx(func(st logical.Storage) string {
+		return cls(t.lm.RestorePolicy(t.ctx, st, t.name, blob, force))
+	})
+}
+
+// RestoreRaw is the bare library call on the (non-transaction) storage handle; an empty blob only probes support.
+func (t *target) RestoreRaw(blob string, force bool) (string, bool) {
+	if blob == "" {
+		return "probe", true
+	}
 	return t.mutating(func() string {
 		return cls(t.lm.RestorePolicy(t.ctx, t.st, t.name, blob, force))
-	})
+	}), true
 }
 
 func (t *target) Delete() string {
